@@ -87,7 +87,8 @@ def run(ctx):
         cs = REACH[:k] + rng.choice([[], [], ["X"], ["A'"], ["T"]])
         rng.shuffle(cs)
         specs.append({"cands": cs, "schedule": [], "mode": "observe"})
-        specs.append({"cands": cs, "schedule": [], "mode": "select", "extra": rng.choice([0, 1, 3])})
+        specs.append({"cands": cs, "schedule": [], "mode": "select", "extra": rng.choice([0, 1, 3]),
+                      "rogues": rng.choice([0, 0, 1, 3]), "rogue_code": rng.choice(["", "WRONGCOD"])})
     specs.append({"cands": ["X"], "schedule": [], "mode": "observe"})
     specs.append({"cands": ["A"], "schedule": [], "mode": "select", "extra": 3})
     lines = ["race " + json.dumps(s).encode().hex() for s in specs]
@@ -146,10 +147,12 @@ def run(ctx):
             if len(o.get("server_token_conn", [])) != 1:
                 ctx.violation("C09:returned-connection-unusable", "the connection handed to the caller did not carry a stream to the listener", rep)
             elif (o["server_token_conn"][0] not in o.get("server_open", [])
-                  or len(o.get("server_open", [])) - 1 > o.get("updates", "").count(":canceled")):
+                  or len(o.get("server_open", [])) - 1 > len([u for u in o.get("updates", "").split(",")
+                                                              if u.endswith(":canceled") and u.split(":")[0] not in (o.get("established") or [])])):
                 # (a dial cancelled at the very moment its handshake completes is dropped by quic-go without a CONNECTION_CLOSE: the
                 #  listener keeps that half-open connection until its idle timeout; it is not a connection of the dialing side any more.
-                #  Anything open beyond the caller's connection and one such leftover per cancelled dial is an abandoned live connection.)
+                #  Anything open beyond the caller's connection and one such leftover per dial that was cancelled before tr.Dial returned
+                #  a connection (it never reached the hook behind tr.Dial) is an abandoned live connection.)
                 ctx.violation("C09:abandoned-connection-left-open", f"{len(o.get('server_open', []))} connections are still open at the listener a grace period after ProbeAndDial returned "
                               f"(the caller's is #{o['server_token_conn'][0]}; candidates {s['cands']}, schedule {s['schedule']})", rep)
             p = pred.get(i)
@@ -163,6 +166,8 @@ def run(ctx):
                 ctx.violation("C09:authentication-delayed-by-abandoned-connection", f"authentication took {o['auth_ms']} ms", rep)
             if s.get("extra") and o.get("same_connection") and (o.get("extra_receiver_ok") != s["extra"] or o.get("extra_sender_ok") != s["extra"]):
                 ctx.violation("C09:extra-connections-lost", f"{s['extra']} extra connections dialled, sender authenticated {o.get('extra_sender_ok')}, receiver kept {o.get('extra_receiver_ok')}: {o.get('extra_receiver_err', '')}", rep)
+            if o.get("rogue_accepted"):
+                ctx.violation("C09:stranger-authenticated", f"{o['rogue_accepted']} stranger(s) without the join code passed authentication at the accepting side", rep)
             if o.get("unexpected_extra_authenticated"):
                 ctx.violation("C09:abandoned-connection-authenticated", "a connection nobody authenticates on came out of acceptAuthenticated", rep)
         ok_runs += 1
@@ -173,7 +178,7 @@ def run(ctx):
         "disagreements_model_vs_impl": len(diffs),
         "rule": "controlled: every order of the claims of 2 and 3 reachable candidates and the caller's receive (receive after at least one claim), the same with an unreachable port / a duplicate spelling / a turn:-prefixed address added, "
                 "and the winner's path behind a relay that delays its packets towards the listener by 30-300 ms so that the listener completes the loser first (observer and real receiver selection). "
-                "natural timing: 2-4 reachable loopback addresses of one listener (+ optional unreachable/duplicate/turn candidate) in random order, observer mode and real selection with 0-3 extra connections. "
+                "natural timing: 2-4 reachable loopback addresses of one listener (+ optional unreachable/duplicate/turn candidate) in random order, observer mode and real selection with 0-3 extra connections and 0-3 strangers (silent, or authenticating with a wrong code) connected to the listener first. "
                 "oracle: one 'won', the caller's connection is the only one open at the listener after 400 ms, both peers authenticate on the same connection within 3 s, all extra connections kept, nothing else authenticates",
         "samples": [json.dumps(specs[0]), json.dumps(specs[n_sched - 1]), mcases[0] if mcases else ""],
     })
